@@ -204,7 +204,7 @@ def run(ctx: Ctx):
         replay_graph(ctx, 'MC_GroupedList_thorough.cfg', timeout=3000)
         ctx.exhaustive = True
         ctx.exhaustive_domain = 'complete reachable graphs of GroupedList.tla for |U|=4 and |U|=5 (every transition replayed)'
-        judge_histories(ctx, 8000, 120)
+        judge_histories(ctx, 3000, 120)
     selftest_binding(ctx)
 
 
